@@ -6,6 +6,7 @@ from mc import bind  # noqa: F401
 from mc import mspace as ms
 from mc.refmodel import replay
 from checks import _pathspace as ps
+import leuvenmapmatching.matcher.base as mbase
 
 ID = "C02"
 TITLE = "Reported probability is the model probability of the reported path"
@@ -24,7 +25,7 @@ MANIFEST = {
     "technique": "bounded-exhaustive enumeration of inputs x configurations and of operation histories, replay of the implementation's path in a reference model",
 }
 MANIFEST["text"] += " " + (
-    'Added after the seeding waves: the geometry fields of path states (edge_m.pi, edge_o.pi, dist_obs) are judged here too; a matcher object re-used for another trace (operation N); the recorded input of known finding D14 is part of every run.')
+    'Added after the seeding waves: the geometry fields of path states (edge_m.pi, edge_o.pi, dist_obs) are judged here too; a matcher object re-used for another trace (operation N); the recorded input of known finding D14 is part of every run; jump histories match / continue_with_distance / extend with a finite max_dist on the named graphs (a jump is a not-connected transition of the documented model).')
 BUDGET = {"quick": 420, "thorough": 3000}
 RULE = ("cases = (graph) for one-shot runs and (graph) for histories; states = path states re-scored, transitions = path steps "
         "re-scored, traces validated = best paths replayed in the model; non-trivial = the path contains a non-emitting state, a "
@@ -40,6 +41,7 @@ MAIN = [C(f, ne, av) for f in ms.FAMS for ne in (False, True) for av in (False, 
         C("D", True, True, "none", None, ne_factor=0.5)] + \
        [C(f, True, True, "none", None, maxnb=1) for f in ms.FAMS] + [C("D", True, True, "none", 2, maxnb=2)]
 N4 = [C(f, True, True) for f in ms.FAMS] + [C("D", True, True, "none", 1), C("S", True, True, "none", 1), C("D", True, False, "mpn0.3")]
+JUMP = [C("D", False, True, "md1.5"), C("S", True, True, "md1.5", 1), C("D", True, True, "md1.5", 2), C("S", False, False, "md1.5")]
 HIST = [C("D", True, True, "none", 1), C("S", True, True, "none", 1), C("SN", True, True, "none", 1), C("D", False, True, "none", 1)]
 
 
@@ -69,6 +71,11 @@ def cases(tier):
         for gs in ms.graph_slice("n3"):
             if gs[0] == "GENERIC" and bin(gs[2]).count("1") >= 3:
                 yield {"kind": "hist", "gs": list(gs), "slice": "hist", "T": 3, "hist": hist, "tier": tier}
+    # after an early stop: jump with continue_with_distance(), then extend - the states reached through a jump report model
+    # values as well (a jump is a not-connected transition of the documented model)
+    for hist in ([["M", 9], ["C", None], ["X", 9]], [["M", 9], ["C", 1.0], ["X", 9]]):
+        for name, pos, g in ms.special_graphs():
+            yield {"kind": "hist", "gs": ms.explicit(g), "pos": pos, "slice": "hist-special", "name": name, "T": 3, "hist": hist, "tier": tier, "jump": True}
     # the recorded input of known finding D14 (4 nodes, 5 edges, widths 1 -> 2) is part of every run
     yield dict(D14_EXAMPLE, tier=tier)
     if tier == "thorough":
@@ -78,13 +85,41 @@ def cases(tier):
                 yield {"kind": "hist", "gs": list(gs), "slice": "hist", "T": 3, "tier": tier, "only_widen": True}
 
 
+# Harness-side probe (no source hook): which lattice entries were improved IN PLACE by a jump candidate during
+# continue_with_distance() - needed to evaluate the predicate of known finding D22 exactly.
+_orig_cwd = mbase.BaseMatcher.continue_with_distance
+
+
+def _probe_cwd(self, *a, **kw):
+    before = {}
+    if self.lattice:
+        before = {id(e): e.logprob for col in self.lattice.values() for layer in col.o for e in layer.values()}
+    try:
+        return _orig_cwd(self, *a, **kw)
+    finally:
+        imp = getattr(self, "_verif_improved", None) or set()
+        if self.lattice:
+            for col in self.lattice.values():
+                for layer in col.o:
+                    for e in layer.values():
+                        if id(e) in before and e.logprob > before[id(e)]:
+                            imp.add(id(e))
+        self._verif_improved = imp
+
+
+mbase.BaseMatcher.continue_with_distance = _probe_cwd
+
+
 def judge(m, r, graph, trace, c, unique, ctx):
     if isinstance(r, Exception):
         return [(None, f"raised {r!r}")] if not ctx["expand"] else []
+    if ctx.get("op") and ctx["op"][0] == "C":
+        return []       # continue_with_distance() returns nothing and does not rebuild lattice_best: no path is reported
     if not (isinstance(r, tuple) and len(r) == 2) or not m.lattice_best:
         return []
     out = []
-    viols, nstates = replay(m, trace, ms.kind_of(c))
+    jumped = any(op[0] == "C" for op in ctx.get("hist") or [])
+    viols, nstates = replay(m, trace, ms.kind_of(c), resync=jumped)
     lb = m.lattice_best
     if ctx["expand"] or any(e.obs_ne for e in lb) or any(a.edge_m.label != b.edge_m.label and a.edge_m.l2 != b.edge_m.l1 for a, b in zip(lb, lb[1:])):
         out.append(("NT", ""))
@@ -100,6 +135,21 @@ def judge(m, r, graph, trace, c, unique, ctx):
             mod = float(msg.split("!= model ")[1].split(" ")[0])
             if j > 0 and m.expand_now >= 1 and lb[j - 1].delayed > m.expand_now and rep < mod:
                 fid = "D14"
+            # D22 predicate: the history contains continue_with_distance(), the predecessor on the path was improved in
+            # place by a jump candidate during that call (probe above), and the reported value is LOWER than what the
+            # predecessor's reported value plus this step gives (the replay re-synchronises after every mismatch, so a
+            # mismatch names exactly one stale link)
+            # (with history-dependent terms - going-back penalties, accumulated distances of the distance family inside
+            #  non-emitting runs - the replaced predecessor chain also changes the step term itself, so the stale value can
+            #  be off in either direction)
+            hist_dep = bool(c.get("avoid")) or (c.get("fam") == "D" and c.get("ne"))
+            if jumped and j > 0 and id(lb[j - 1]) in (getattr(m, "_verif_improved", None) or ()) and (rep < mod or hist_dep):
+                fid = "D22"
+        if fid is None and jumped and msg.startswith("[") and ("emitting/non-emitting parts" in msg or "d_o" in msg or "d_s" in msg or "lpt" in msg or "lpe" in msg or "transition/emission terms" in msg):
+            # the other score fields of the same stale entry (computed in the same step from the old predecessor value)
+            j = int(msg[1:msg.index("]")])
+            if j > 0 and id(lb[j - 1]) in (getattr(m, "_verif_improved", None) or ()):
+                fid = "D22"
         out.append((fid, msg))
     return out
 
@@ -118,7 +168,7 @@ def run_case(case):
             out["k"] += r["k"]
             out["out"] = sorted(set(map(repr, out["out"])) | set(map(repr, r["out"])))[:500]
         return out
-    return ps.run(case, cfgs_for, judge, res, hist_cfgs=HIST, hist_depth=depth)
+    return ps.run(case, cfgs_for, judge, res, hist_cfgs=(JUMP if case.get("jump") else HIST), hist_depth=depth)
 
 
 def describe(case):
